@@ -18,7 +18,7 @@ use crate::name::Name;
 use crate::rr::{Rdata, Ttl, Type};
 use std::rc::Rc;
 
-pub struct Src<const N: usize> {
+pub(crate) struct Src<const N: usize> {
     data: [u8; N],
     pos: usize,
 }
@@ -53,7 +53,7 @@ impl<const N: usize> Read for Src<N> {
 }
 
 /// Stub S6: error-message formatting is not the subject.
-pub fn empty_format(_: core::fmt::Arguments) -> String {
+pub(crate) fn empty_format(_: core::fmt::Arguments) -> String {
     String::new()
 }
 
@@ -109,23 +109,18 @@ fn drive<S: Read>(p: &mut Parser<S>, max_items: usize) -> (usize, usize, usize) 
     (recs, incs, errs)
 }
 
-/// The real parser over `data`, except that the reader's buffer is a
-/// 64-octet array on the harness's stack instead of a 16 KiB heap vector
-/// (INITIAL_BUFFER_SIZE).  The buffer's size and location are not observable
-/// (try_fill grows it on demand; the c24_reader_* harnesses check that logic
-/// on real vectors); CBMC keeps constants only in stack arrays of at most 64
-/// elements, so this is what lets the concrete octets of a line stay
-/// concrete.  The `Vec` built over the array must never be reallocated or
-/// dropped: inputs are at most 64 octets long (no growth: `try_fill` only
-/// resizes when asked for more octets than the buffer holds, and reads past
-/// the end of input fail before that), and every parser is `mem::forget`-ed.
-fn small_parser<'b, const N: usize>(data: [u8; N], storage: &'b mut [u8; 64], context: Context) -> Parser<Src<N>> {
-    let buf = unsafe { Vec::from_raw_parts(storage.as_mut_ptr(), 64, 64) };
+/// The real parser over `data`, except that the reader's buffer starts with
+/// 64 octets instead of INITIAL_BUFFER_SIZE (16 KiB).  The buffer's initial
+/// size is not observable (try_fill grows it on demand; the c24_reader_*
+/// harnesses check that logic): with the 16 KiB buffer, which CBMC treats as
+/// one big symbolic array, even a 1-octet input was out of reach (see below).
+/// N <= 64.
+pub(crate) fn small_parser<const N: usize>(data: [u8; N], context: Context) -> Parser<Src<N>> {
     Parser {
         error: false,
         reader: Reader {
             stream: Src::new(data),
-            buf,
+            buf: vec![0; 64],
             start: 0,
             end: 0,
             in_parens: false,
@@ -135,10 +130,18 @@ fn small_parser<'b, const N: usize>(data: [u8; N], storage: &'b mut [u8; 64], co
     }
 }
 
+/// `Parser::from(octets)`: the same, with an empty context.  (A trait impl so
+/// that the family hosted at record.rs, which cannot name this private
+/// module, can build the parser too.)
+impl<const N: usize> From<[u8; N]> for Parser<Src<N>> {
+    fn from(data: [u8; N]) -> Self {
+        small_parser(data, Context::default())
+    }
+}
+
 fn totality<const N: usize>() {
     let data: [u8; N] = kani::any();
-    let mut storage = [0u8; 64];
-    let mut p = small_parser(data, &mut storage, Context::default());
+    let mut p = small_parser(data, Context::default());
     let (recs, _incs, errs) = drive(&mut p, 3);
     kani::cover!(errs == 1, "some input is rejected");
     kani::cover!(errs == 0 && recs == 0, "some input is accepted as empty");
@@ -220,73 +223,21 @@ fn wire_eq(a: &[u8], b: &[u8]) -> bool {
     true
 }
 
-#[kani::proof]
-#[kani::unwind(8)]
-#[kani::stub(alloc::fmt::format, empty_format)]
-fn x_probe_ns_concrete() {
-    let line: [u8; 12] = [b'.', b' ', b'5', b' ', b'I', b'N', b' ', b'N', b'S', b' ', b'.', b'\n'];
-    let mut storage = [0u8; 64];
-    let mut p = small_parser(line, &mut storage, Context::default());
-    let r = first_record(&mut p);
-    match &r {
-        Some((n, rr)) => {
-            assert!(*n == 1, "[C23] line number");
-            assert!(wire_eq(rr.owner.wire_repr(), &[0]), "[C23] owner");
-            assert!(u32::from(rr.ttl) == 5, "[C23] ttl");
-            assert!(rr.class == Class::IN, "[C23] class");
-            assert!(rr.rr_type == Type::NS, "[C23] type");
-            assert!(wire_eq(rr.rdata.octets(), &[0]), "[C23] rdata");
-            check_valid(rr);
-        }
-        None => assert!(false, "[C23] a valid line is rejected"),
-    }
-    kani::cover!(r.is_some(), "parsed");
-    core::mem::forget(r);
-    core::mem::forget(p);
-}
-
-#[kani::proof]
-#[kani::unwind(8)]
-#[kani::stub(alloc::fmt::format, empty_format)]
-fn x_probe_ns_ttl1() {
-    let d: u8 = kani::any();
-    kani::assume(d >= b'0' && d <= b'9');
-    let line: [u8; 12] = [b'.', b' ', d, b' ', b'I', b'N', b' ', b'N', b'S', b' ', b'.', b'\n'];
-    let mut storage = [0u8; 64];
-    let mut p = small_parser(line, &mut storage, Context::default());
-    let r = first_record(&mut p);
-    match &r {
-        Some((n, rr)) => {
-            assert!(*n == 1, "[C23] line number");
-            assert!(wire_eq(rr.owner.wire_repr(), &[0]), "[C23] owner");
-            assert!(u32::from(rr.ttl) == (d - b'0') as u32, "[C23] ttl");
-            assert!(rr.class == Class::IN, "[C23] class");
-            assert!(rr.rr_type == Type::NS, "[C23] type");
-            assert!(wire_eq(rr.rdata.octets(), &[0]), "[C23] rdata");
-            check_valid(rr);
-        }
-        None => assert!(false, "[C23] a valid line is rejected"),
-    }
-    kani::cover!(r.is_some(), "parsed");
-    core::mem::forget(r);
-    core::mem::forget(p);
-}
-
 // --------------------------------------------------------------------------
 // (iii) the reader's buffer management, one step from an arbitrary state
 // --------------------------------------------------------------------------
 
-/// An arbitrary valid reader state over a buffer of L octets and a stream of
-/// N octets of which `pos` were already handed out: start <= end <= L, every
-/// buffer octet symbolic.
-fn any_reader<const N: usize, const L: usize>() -> (Reader<Src<N>>, [u8; L], [u8; N]) {
+/// A reader over a buffer of L octets (contents symbolic) with the given
+/// start / end, and a stream of N symbolic octets of which `pos` (symbolic)
+/// were already handed out.  start and end are CONCRETE: with symbolic ones
+/// `shift()` is a memmove of symbolic length and CBMC ran out of memory while
+/// converting the equation (9.6 GB for L = 4, measured); the harness
+/// enumerates all start <= end <= L instead.
+fn reader_at<const N: usize, const L: usize>(start: usize, end: usize) -> (Reader<Src<N>>, [u8; L], [u8; N]) {
     let content: [u8; L] = kani::any();
     let data: [u8; N] = kani::any();
     let pos: usize = kani::any();
-    let start: usize = kani::any();
-    let end: usize = kani::any();
     kani::assume(pos <= N);
-    kani::assume(start <= end && end <= L);
     let mut buf = vec![0u8; L];
     let mut i = 0;
     while i < L {
@@ -310,9 +261,9 @@ fn any_reader<const N: usize, const L: usize>() -> (Reader<Src<N>>, [u8; L], [u8
 /// try_fill(target): no index leaves the buffer; the unconsumed octets are
 /// kept (in order), followed by the next octets of the stream (in order);
 /// Ok(true) iff `target` octets are then available; Ok(false) only when the
-/// stream is exhausted.
-fn try_fill_step<const N: usize, const L: usize>(target: usize) {
-    let (mut r, content, data) = any_reader::<N, L>();
+/// stream is exhausted.  Returns (refilled after a shift, hit end of stream).
+fn try_fill_step<const N: usize, const L: usize>(start: usize, end: usize, target: usize) -> (bool, bool) {
+    let (mut r, content, data) = reader_at::<N, L>(start, end);
     let old_start = r.start;
     let old_buffered = r.end - r.start;
     let old_pos = r.stream.pos;
@@ -338,32 +289,145 @@ fn try_fill_step<const N: usize, const L: usize>(target: usize) {
         } else {
             data[old_pos + (i - old_buffered)]
         };
-        assert!(r.buf[r.start + i] == expect, "[C24] try_fill corrupts the unconsumed data");
+        assert!(r.buf[r.start + i] == expect, "[C23] try_fill corrupts the unconsumed data");
         i += 1;
     }
-    kani::cover!(matches!(res, Ok(true)) && old_buffered < target && old_start > 0, "refill after a shift");
-    kani::cover!(matches!(res, Ok(false)), "end of stream before the target");
+    let out = (
+        matches!(res, Ok(true)) && old_buffered < target && old_start > 0,
+        matches!(res, Ok(false)),
+    );
     core::mem::forget(r);
+    out
 }
 
-// @harness props=C24,C23 tier=quick mem=4 t=1200
-//   fn="Reader::try_fill,Reader::shift,Reader::buffered"
-//   bound="one try_fill(target) from every reader state over a 4-octet buffer (start <= end <= 4, contents symbolic) and a 3-octet stream with 0..=3 octets already consumed; target symbolic 0..=4 (no growth); unwind 9"
-//   sym="buffer contents, start, end, stream contents and position, target"
+// @harness props=C24,C23 tier=quick mem=6 t=2400
+//   fn="Reader::try_fill,Reader::shift,Reader::buffered,Vec::resize"
+//   bound="one try_fill(target) from every reader state over a 3-octet buffer: every start <= end <= 3 (10 pairs, enumerated), buffer contents symbolic, a 2-octet stream (contents symbolic, 0..=2 octets already consumed, symbolic), every target 0..=5 (enumerated; 4 and 5 make the buffer grow); unwind 8"
+//   sym="buffer contents, stream contents and position"
 #[kani::proof]
-#[kani::unwind(9)]
-fn c24_reader_try_fill_nogrow() {
-    let target: usize = kani::any();
-    kani::assume(target <= 4);
-    try_fill_step::<3, 4>(target);
+#[kani::unwind(8)]
+fn c24_reader_try_fill() {
+    let mut shifted = false;
+    let mut eof = false;
+    let mut start = 0;
+    while start <= 3 {
+        let mut end = start;
+        while end <= 3 {
+            let mut target = 0;
+            while target <= 5 {
+                let (s, e) = try_fill_step::<2, 3>(start, end, target);
+                shifted = shifted || s;
+                eof = eof || e;
+                target += 1;
+            }
+            end += 1;
+        }
+        start += 1;
+    }
+    kani::cover!(shifted, "refill after a shift");
+    kani::cover!(eof, "end of stream before the target");
 }
 
-// @harness props=C24,C23 tier=quick mem=6 t=1800
-//   fn="Reader::try_fill,Reader::shift,Vec::resize"
-//   bound="one try_fill(6) from every reader state over a 4-octet buffer and a 3-octet stream: the buffer must grow; unwind 9"
-//   sym="buffer contents, start, end, stream contents and position"
-#[kani::proof]
-#[kani::unwind(9)]
-fn c24_reader_try_fill_grow() {
-    try_fill_step::<3, 4>(6);
+// --------------------------------------------------------------------------
+// parser helpers on tiny symbolic inputs
+// --------------------------------------------------------------------------
+//
+// Whole lines are out of reach (see the report in the annotations below):
+// every `io::Result<Option<u8>>` the reader returns loses its constants in
+// CBMC (measured with a function that returns the constant `Ok(Some(b'.'))`:
+// the match on it is not folded), so the parser's control flow is symbolic
+// even for a fully concrete line and every loop runs to the unwind bound.
+// The helpers below are checked on inputs of 2-5 octets instead.
+
+pub(crate) fn is_digit(b: u8) -> bool {
+    b >= b'0' && b <= b'9'
 }
+
+// @harness props=C23,C24 tier=quick mem=4 t=1800 stubs="S6"
+//   fn="Parser::parse_escape,Parser::parse_decimal_escape,Reader::read_octet,Reader::read"
+//   bound="the 3 octets after a backslash, all symbolic (2^24), followed by end of input: value of \\DDD and \\X escapes, the three error kinds; unwind 5"
+//   sym="data:[u8;3]"
+#[kani::proof]
+#[kani::unwind(5)]
+#[kani::stub(alloc::fmt::format, empty_format)]
+fn c23_escape_3() {
+    let d: [u8; 3] = kani::any();
+    let mut p = small_parser(d, Context::default());
+    let r = p.parse_escape();
+    let consumed = p.reader.start;
+    if is_digit(d[0]) {
+        let all = is_digit(d[1]) && is_digit(d[2]);
+        let v = 100 * (d[0] - b'0') as u32 + 10 * (d[1].wrapping_sub(b'0')) as u32 + (d[2].wrapping_sub(b'0')) as u32;
+        match &r {
+            Ok(x) => {
+                assert!(all && v <= 255, "[C23] a malformed or out-of-range \\DDD escape is accepted");
+                assert!(*x as u32 == v, "[C23] \\DDD escape has the wrong value");
+                assert!(consumed == 3, "[C23] \\DDD escape consumes three digits");
+            }
+            Err(Error::Syntax(det)) => {
+                assert!(!(all && v <= 255), "[C23] a valid \\DDD escape is rejected");
+                if !all {
+                    assert!(det.kind == ErrorKind::EscapeNeedsThreeDigits, "[C23] wrong error for a short \\DDD escape");
+                } else {
+                    assert!(det.kind == ErrorKind::EscapeValueOutOfRange, "[C23] wrong error for \\DDD > 255");
+                }
+            }
+            Err(_) => assert!(false, "[C24] I/O error from a source that never fails"),
+        }
+        kani::cover!(matches!(r, Ok(255)), "\\255");
+        kani::cover!(r.is_err() && all, "\\256 or more");
+    } else {
+        match &r {
+            Ok(x) => {
+                assert!(*x == d[0], "[C23] \\X must stand for X");
+                assert!(consumed == 1, "[C23] \\X consumes one octet");
+            }
+            Err(_) => assert!(false, "[C23] \\X rejected"),
+        }
+        kani::cover!(matches!(r, Ok(b'.')), "escaped dot");
+    }
+    core::mem::forget(r);
+    core::mem::forget(p);
+}
+
+// @harness props=C23,C24 tier=quick mem=4 t=1800 stubs="S6"
+//   fn="Parser::parse_escape,Parser::parse_decimal_escape"
+//   bound="1 or 2 octets after a backslash (symbolic) followed by end of input, and no octet at all: EofInEscape unless the single octet is not a digit; unwind 5"
+//   sym="data:[u8;2], length in {0,1,2} (three parsers)"
+#[kani::proof]
+#[kani::unwind(5)]
+#[kani::stub(alloc::fmt::format, empty_format)]
+fn c23_escape_short() {
+    let d: [u8; 2] = kani::any();
+    let mut p0 = small_parser([0u8; 0], Context::default());
+    let r0 = p0.parse_escape();
+    assert!(
+        matches!(&r0, Err(Error::Syntax(det)) if det.kind == ErrorKind::EofInEscape),
+        "[C23] backslash at end of input must be EofInEscape"
+    );
+    let mut p1 = small_parser([d[0]], Context::default());
+    let r1 = p1.parse_escape();
+    if is_digit(d[0]) {
+        assert!(
+            matches!(&r1, Err(Error::Syntax(det)) if det.kind == ErrorKind::EofInEscape),
+            "[C23] one digit then end of input must be EofInEscape"
+        );
+    } else {
+        assert!(matches!(&r1, Ok(x) if *x == d[0]), "[C23] \\X at end of input stands for X");
+    }
+    let mut p2 = small_parser([d[0], d[1]], Context::default());
+    let r2 = p2.parse_escape();
+    if is_digit(d[0]) {
+        assert!(
+            matches!(&r2, Err(Error::Syntax(det)) if det.kind == ErrorKind::EofInEscape),
+            "[C23] two octets of a \\DDD escape then end of input must be EofInEscape"
+        );
+    } else {
+        assert!(matches!(&r2, Ok(x) if *x == d[0]), "[C23] \\X stands for X");
+    }
+    kani::cover!(r1.is_ok(), "single escaped octet");
+    kani::cover!(r2.is_err(), "truncated decimal escape");
+    core::mem::forget((r0, r1, r2));
+    core::mem::forget((p0, p1, p2));
+}
+
